@@ -298,11 +298,11 @@ def run(ctx: Ctx):
                 check_op(ctx, op, A, None, "exhaustive")
     ctx.exhaustive(("all" if thorough else "every 3rd of the") + " 2-state NFAs over {a} with ε × kleene_star, option, reverse")
     ones_ab = list(gen.all_nfas(1, ("a", "b")))
-    for A in (twos if thorough else twos[::40]):
+    for A in (twos[::5] if thorough else twos[::40]):
         for B in (ones_ab if thorough else ones_ab[::3]):
             for op in BINARY:
                 check_op(ctx, op, A, B, "exhaustive_mixed")
-                if thorough:
+                if thorough and op in ("concatenate", "right_quotient", "left_quotient"):
                     check_op(ctx, op, B, A, "exhaustive_mixed")
     # 2. shaped random pairs
     for _ in range(ctx.budget(800, 20000)):
